@@ -145,11 +145,14 @@ def r3(ctx):
             fld = 'base_index' if lst == 'ClockInfoList' else 'index'
             sz = size['ClockInfo' if lst == 'ClockInfoList' else 'LinkInfo']
             ok = len(args) == 2 and {short_name(b.callee(u)['def']) for u in ui} == {'ClockInfoList::update_indices', 'LinkInfoList::update_indices'} and \
-                all(re.search(r' as Continue\)\.0\.%s$' % fld, a[1]) and a[2] == 'SIZE=%d' % sz for a in args) and args[0][1:] == args[1][1:]
+                all(re.search(r'( as Continue\)\.0|Storage::remove\(self\.0, \(Iter::position\(.*\) as Some\)\.0\))\.%s$' % fld, a[1]) and a[2] == 'SIZE=%d' % sz for a in args) and args[0][1:] == args[1][1:]
             ctx.check('%s::remove|update-both-lists' % lst, ok, 'update_indices calls %s' % [[x[-40:] for x in a] for a in args], sample=len(args))
+            # either spelling of "the element was found and removed": `if let Some(pos) .. Ok(remove(pos)) else Err ..?` or `let Some(pos) = .. else { return Err }`
+            removed = any_of(fact_is(r'^Result::branch\(\{Result::Err\{0: AlgoError::Unknown\w+\{0: id\}\} \| Result::Ok\{0: \w+::remove\(self\.0, \(Iter::position\(.*\) as Some\)\.0\)\}\}\)$', 'Continue'),
+                             fact_is(r'^Iter::position\(slice::iter\(Deref::deref\(self\.0\)\), closure:', ['Some']))
             for u in ui:
-                ctx.guard(b, u, 'removed', fact_is(r'^Result::branch\(\{Result::Err\{0: AlgoError::Unknown\w+\{0: id\}\} \| Result::Ok\{0: \w+::remove\(self\.0, \(Iter::position\(.*\) as Some\)\.0\)\}\}\)$', 'Continue'),
-                          key='%s::remove|%s|after-removal' % (lst, short_name(b.callee(u)['def'])))
+                ctx.guard(b, u, 'removed', removed, key='%s::remove|%s|after-removal' % (lst, short_name(b.callee(u)['def'])))
+                ctx.check('%s::remove|%s|after-remove-call' % (lst, short_name(b.callee(u)['def'])), b.can_reach(c.bb, u.bb) and not b.can_reach(u.bb, c.bb), 'indices are shifted before the element is removed', u.where(), sample=True)
     for lst, fld in (('ClockInfoList', 'base_index'), ('LinkInfoList', 'index')):
         b = P.body(E + lst + '::update_indices')
         dw = [(s, t, v) for s, t, v in deref_writes(b)]
